@@ -773,8 +773,23 @@ pub fn run(a: &Args) -> i32 {
             if recheck_every > 0 && (evaluations % recheck_every) == 0 {
                 let (got2, info2) = run_one(&sc, op, &input, &pin, &cfg);
                 recheck.0 += 1;
-                if got2 != got || info2.report.log_hash() != info.report.log_hash() || info2.key_draws != info.key_draws || info2.alloc.shuffled_choices != info.alloc.shuffled_choices {
+                if got2 != got {
+                    // the same configuration, executed twice, gave two outcomes: every source of
+                    // nondeterminism the simulator knows is pinned, so the code under test consults
+                    // one it should not (real time, OS randomness, ...).  That is C20 itself.
                     recheck.1 += 1;
+                    let rep = json!({
+                        "property": "C20", "engine": "sched", "kind": "rerun", "verif_seed": a.seed, "run": r, "tier": a.tier,
+                        "scenario": sc, "variant": {"config": cfg},
+                        "difference": {"class": "same-configuration-rerun-differs", "needed_dimensions": ["unpinned-source"],
+                                       "first": got.to_json(), "second": got2.to_json()},
+                    });
+                    let path = write_replay(a, &format!("C20-{}-{}-{}-rerun.json", a.seed, r, v), &rep);
+                    violations.push(json!({"replay": path, "class": "same-configuration-rerun-differs", "op": sc.op, "needed_dimensions": ["unpinned-source"],
+                        "detail": format!("{} on {:?}: two executions of one configuration gave {} and {}", sc.op, sc.input, got.to_json(), got2.to_json())}));
+                    break;
+                }
+                if info2.report.log_hash() != info.report.log_hash() || info2.key_draws != info.key_draws || info2.alloc.shuffled_choices != info.alloc.shuffled_choices {
                     eprintln!("SIM-ERROR: simulator nondeterministic: run {} variant {} scenario {:?} config {:?}", r, v, sc, cfg);
                     std::process::exit(2);
                 }
@@ -854,6 +869,24 @@ pub fn replay(a: &Args) -> i32 {
             return 2;
         }
     };
+    if v["kind"] == "rerun" {
+        let sc: Scenario = serde_json::from_value(v["scenario"].clone()).expect("scenario");
+        let cfg: Cfg = serde_json::from_value(v["variant"]["config"].clone()).expect("config");
+        let op = ops::find(&sc.op).expect("op");
+        let input = inputs::build(&sc.input);
+        let pin = prefix_inputs_for(&sc, &cfg);
+        let (first, _) = run_one(&sc, op, &input, &pin, &cfg);
+        for k in 0..20 {
+            let (again, _) = run_one(&sc, op, &input, &pin, &cfg);
+            if again != first {
+                println!("execution {} differs from the first: {} vs {}", k + 2, again.to_json(), first.to_json());
+                println!("VIOLATION property=C20 replay={}", f);
+                return 1;
+            }
+        }
+        println!("NOT-REPRODUCED property=C20 replay={} (21 executions agree)", f);
+        return 0;
+    }
     if v["kind"] == "fresh-process" {
         // re-execute the recorded shard up to the recorded run: the history is part of the replay
         let rp = &v["reproduce"];
